@@ -31,7 +31,10 @@ def busStepOld {V : Type} (reenc : String → List V → Option (List V)) (net :
 
 def stepOld {V : Type} (reenc : String → List V → Option (List V)) (w : World V) (net : Net V) : Step V → Net V
   | .toBus c => if c < net.n then busStepOld reenc net c else net
-  | st => step w net st
+  | .call c req => step w net (.call c req)
+  | .toClient c beh => step w net (.toClient c beh)
+  | .resolve c tok res => step w net (.resolve c tok res)
+  | .expire c serial => step w net (.expire c serial)
 
 def runOld {V : Type} (reenc : String → List V → Option (List V)) (w : World V) (net : Net V)
     (steps : List (Step V)) : Net V :=
